@@ -7,7 +7,7 @@ META = {
  "property": "C04",
  "harnesses": {},
  "scripts": {
-  "s_e2_validators": {"entry": "s_e2_validators", "timeout": {"quick": 600, "thorough": 1200}},
+  "s_e2_validators": {"entry": "s_e2_validators", "timeout": {"quick": 600, "thorough": 900}},
  },
 }
 
